@@ -18,7 +18,7 @@ import os
 import numpy as np
 from hypothesis import strategies as st
 
-from harness import build, gen
+from harness import build, gen, reps
 from harness import refmodel as rm
 
 RULE = (
@@ -403,10 +403,10 @@ def impls_dm2vec(env, m, aux):
     from quara.objects import state as S
 
     return {
-        "to_vec_from_density_matrix_with_sparsity": lambda: S.to_vec_from_density_matrix_with_sparsity(env.c_sys, m.copy()),
-        "to_var_from_density_matrix[F]": lambda: S.to_var_from_density_matrix(env.c_sys, m.copy(), False),
+        "to_vec_from_density_matrix_with_sparsity": lambda: S.to_vec_from_density_matrix_with_sparsity(env.c_sys, reps.layout(m.copy())),
+        "to_var_from_density_matrix[F]": lambda: S.to_var_from_density_matrix(env.c_sys, reps.layout(m.copy()), False),
         "to_var_from_density_matrix[T]": lambda: np.concatenate(
-            [[np.nan], np.asarray(S.to_var_from_density_matrix(env.c_sys, m.copy(), True))]
+            [[np.nan], np.asarray(S.to_var_from_density_matrix(env.c_sys, reps.layout(m.copy()), True))]
         ),
     }
 
@@ -434,9 +434,9 @@ def impls_mats2vecs(env, ms, aux):
     from quara.objects import povm as P
 
     return {
-        "to_vecs_from_matrices_with_sparsity": lambda: P.to_vecs_from_matrices_with_sparsity(env.c_sys, [m.copy() for m in ms]),
-        "to_vec_from_matrix_with_sparsity": lambda: [P.to_vec_from_matrix_with_sparsity(env.c_sys, m.copy()) for m in ms],
-        "to_var_from_matrices[F]": lambda: np.asarray(P.to_var_from_matrices(env.c_sys, [m.copy() for m in ms], False)).reshape(
+        "to_vecs_from_matrices_with_sparsity": lambda: P.to_vecs_from_matrices_with_sparsity(env.c_sys, [reps.layout(m.copy()) for m in ms]),
+        "to_vec_from_matrix_with_sparsity": lambda: [P.to_vec_from_matrix_with_sparsity(env.c_sys, reps.layout(m.copy())) for m in ms],
+        "to_var_from_matrices[F]": lambda: np.asarray(P.to_var_from_matrices(env.c_sys, [reps.layout(m.copy()) for m in ms], False)).reshape(
             len(ms), -1
         ),
     }
@@ -447,9 +447,9 @@ def impls_hs2choi(env, hs, aux):
 
     g = _gate(env, hs)
     out = {
-        "to_choi_from_hs": lambda: G.to_choi_from_hs(env.c_sys, hs.copy()),
-        "to_choi_from_hs_with_dict": lambda: G.to_choi_from_hs_with_dict(env.c_sys, hs.copy()),
-        "to_choi_from_hs_with_sparsity": lambda: G.to_choi_from_hs_with_sparsity(env.c_sys, hs.copy()),
+        "to_choi_from_hs": lambda: G.to_choi_from_hs(env.c_sys, reps.layout(hs.copy())),
+        "to_choi_from_hs_with_dict": lambda: G.to_choi_from_hs_with_dict(env.c_sys, reps.layout(hs.copy())),
+        "to_choi_from_hs_with_sparsity": lambda: G.to_choi_from_hs_with_sparsity(env.c_sys, reps.layout(hs.copy())),
         "Gate.to_choi_matrix": lambda: g.to_choi_matrix(),
         "Gate.to_choi_matrix_with_dict": lambda: g.to_choi_matrix_with_dict(),
         "Gate.to_choi_matrix_with_sparsity": lambda: g.to_choi_matrix_with_sparsity(),
@@ -467,10 +467,10 @@ def impls_choi2hs(env, c, aux):
     from quara.objects import gate as G
 
     return {
-        "to_hs_from_choi": lambda: G.to_hs_from_choi(env.c_sys, c.copy()),
-        "to_hs_from_choi_with_dict": lambda: G.to_hs_from_choi_with_dict(env.c_sys, c.copy()),
-        "to_hs_from_choi_with_sparsity": lambda: G.to_hs_from_choi_with_sparsity(env.c_sys, c.copy()),
-        "to_var_from_choi[F]": lambda: np.asarray(G.to_var_from_choi(env.c_sys, c.copy(), False)).reshape(env.n, env.n),
+        "to_hs_from_choi": lambda: G.to_hs_from_choi(env.c_sys, reps.layout(c.copy())),
+        "to_hs_from_choi_with_dict": lambda: G.to_hs_from_choi_with_dict(env.c_sys, reps.layout(c.copy())),
+        "to_hs_from_choi_with_sparsity": lambda: G.to_hs_from_choi_with_sparsity(env.c_sys, reps.layout(c.copy())),
+        "to_var_from_choi[F]": lambda: np.asarray(G.to_var_from_choi(env.c_sys, reps.layout(c.copy()), False)).reshape(env.n, env.n),
     }
 
 
@@ -479,7 +479,7 @@ def impls_hs2proc(env, hs, aux):
 
     g = _gate(env, hs)
     out = {
-        "to_process_matrix_from_hs": lambda: G.to_process_matrix_from_hs(env.c_sys, hs.copy()),
+        "to_process_matrix_from_hs": lambda: G.to_process_matrix_from_hs(env.c_sys, reps.layout(hs.copy())),
         "Gate.to_process_matrix": lambda: g.to_process_matrix(),
     }
     if env.identity_first:
